@@ -81,7 +81,7 @@ end group0
 /-! ## group1, group4 -/
 theorem group1_text (cfg : Cfg) (s : State) (g : Group) (t : Nat) : (group1 cfg s g).1.text t = s.text t := by
   unfold group1 State.text; split <;> split <;> simp
-theorem group4_fst (s : State) (g : Group) : (group4 s g).1 = s := by
+theorem cells_group4_fst (s : State) (g : Group) : (group4 s g).1 = s := by
   unfold group4; split
   · simp only []; split <;> rfl
   · rfl
@@ -105,51 +105,243 @@ end group10
 
 /-! ## group2 -/
 /-- the toggle-detection condition of `group2` -/
-def g2sw (s : State) (g : Group) : Bool := g.eb = 0 && (((g.b / 16 % 2 : Nat) : Int) != s.lastRt)
+def cg2sw (s : State) (g : Group) : Bool := g.eb = 0 && (((g.b / 16 % 2 : Nat) : Int) != s.lastRt)
 /-- the discard condition of `group2` -/
-def g2clr (s : State) (g : Group) : Bool :=
-  g2sw s g && s.lastRt != -1 && getAvailable (s.rt (g.b / 16 % 2))
+def cg2clr (s : State) (g : Group) : Bool :=
+  cg2sw s g && s.lastRt != -1 && getAvailable (s.rt (g.b / 16 % 2))
 /-- the state of `group2` after toggle detection -/
-def g2s2 (s : State) (g : Group) : State :=
-  let s1 := if g2clr s g then s.setRt (g.b / 16 % 2) (s.rt (g.b / 16 % 2)).cleared else s
-  if g2sw s g then { s1 with lastRt := (g.b / 16 % 2 : Nat) } else s1
+def cg2s2 (s : State) (g : Group) : State :=
+  let s1 := if cg2clr s g then s.setRt (g.b / 16 % 2) (s.rt (g.b / 16 % 2)).cleared else s
+  if cg2sw s g then { s1 with lastRt := (g.b / 16 % 2 : Nat) } else s1
 /-- the bit-flip guard of `group2` -/
-def g2guard (s : State) (g : Group) : Bool :=
-  g.eb != 0 && ((g.b / 16 % 2 : Nat) : Int) != (g2s2 s g).lastRt && (g2s2 s g).lastRt != -1
+def cg2guard (s : State) (g : Group) : Bool :=
+  g.eb != 0 && ((g.b / 16 % 2 : Nat) : Int) != (cg2s2 s g).lastRt && (cg2s2 s g).lastRt != -1
 /-- the character updates of `group2` -/
-def g2chain (cfg : Cfg) (set : Settings) (g : Group) (old : Text) : Text :=
+def cg2chain (cfg : Cfg) (set : Settings) (g : Group) (old : Text) : Text :=
   let u1 := if !g.versionB
     then parserUpdate cfg set old .rt g.c g.eb g.ec (4 * (g.b % 16))
     else (old, false)
   let pos2 := if !g.versionB then 4 * (g.b % 16) + 2 else 2 * (g.b % 16)
   (parserUpdate cfg set u1.1 .rt g.d g.eb g.ed pos2).1
 
-theorem group2_fst (cfg : Cfg) (s : State) (g : Group) :
+theorem cells_group2_fst (cfg : Cfg) (s : State) (g : Group) :
     (group2 cfg s g).1 =
-      if g2guard s g then g2s2 s g
-      else (g2s2 s g).setRt (g.b / 16 % 2)
-        (g2chain cfg (g2s2 s g).set g ((g2s2 s g).rt (g.b / 16 % 2))) := by
+      if cg2guard s g then cg2s2 s g
+      else (cg2s2 s g).setRt (g.b / 16 % 2)
+        (cg2chain cfg (cg2s2 s g).set g ((cg2s2 s g).rt (g.b / 16 % 2))) := by
   unfold group2
   exact apply_ite Prod.fst _ _ _
 
-section g2s2
+section cg2s2
 variable (s : State) (g : Group)
-@[simp] theorem g2s2_set : (g2s2 s g).set = s.set := by
-  unfold g2s2; simp only []; split <;> split <;> simp
-@[simp] theorem g2s2_ps : (g2s2 s g).ps = s.ps := by
-  unfold g2s2; simp only []; split <;> split <;> simp
-@[simp] theorem g2s2_ptyn : (g2s2 s g).ptyn = s.ptyn := by
-  unfold g2s2; simp only []; split <;> split <;> simp
-theorem g2s2_rt_same : (g2s2 s g).rt (g.b / 16 % 2) =
-    if g2clr s g then (s.rt (g.b / 16 % 2)).cleared else s.rt (g.b / 16 % 2) := by
-  unfold g2s2; simp only []
+@[simp] theorem g2s2_set : (cg2s2 s g).set = s.set := by
+  unfold cg2s2; simp only []; split <;> split <;> simp
+@[simp] theorem g2s2_ps : (cg2s2 s g).ps = s.ps := by
+  unfold cg2s2; simp only []; split <;> split <;> simp
+@[simp] theorem g2s2_ptyn : (cg2s2 s g).ptyn = s.ptyn := by
+  unfold cg2s2; simp only []; split <;> split <;> simp
+theorem g2s2_rt_same : (cg2s2 s g).rt (g.b / 16 % 2) =
+    if cg2clr s g then (s.rt (g.b / 16 % 2)).cleared else s.rt (g.b / 16 % 2) := by
+  unfold cg2s2; simp only []
   split <;> split <;> first | rfl | simp only [lastRt_upd_rt, setRt_rt_same]
-theorem g2s2_rt_ne (f : Nat) (hf : f < 2) (h : g.b / 16 % 2 ≠ f) : (g2s2 s g).rt f = s.rt f := by
+theorem g2s2_rt_ne (f : Nat) (hf : f < 2) (h : g.b / 16 % 2 ≠ f) : (cg2s2 s g).rt f = s.rt f := by
   have hlt : g.b / 16 % 2 < 2 := Nat.mod_lt _ (by decide)
-  unfold g2s2; simp only []
+  unfold cg2s2; simp only []
   split <;> split <;> first | rfl | simp only [lastRt_upd_rt, setRt_rt_ne _ _ _ _ hlt hf h]
-theorem g2s2_lastRt : (g2s2 s g).lastRt = if g2sw s g then ((g.b / 16 % 2 : Nat) : Int) else s.lastRt := by
-  unfold g2s2; simp only []; split <;> split <;> simp
-end g2s2
+theorem g2s2_lastRt : (cg2s2 s g).lastRt = if cg2sw s g then ((g.b / 16 % 2 : Nat) : Int) else s.lastRt := by
+  unfold cg2s2; simp only []; split <;> split <;> simp
+end cg2s2
+
+/-! ## the specification side -/
+theorem switchDiscard_ne2 (m : Mon) (before : Obs) (g : Group) (h : g.type ≠ 2) :
+    switchDiscard m before g = false := by simp [switchDiscard, h]
+
+theorem rtNoisy_ne2 (m : Mon) (g : Group) (h : g.type ≠ 2) : rtNoisy m g = false := by
+  simp [rtNoisy, h]
+
+/-- a text that is neither discarded nor addressed keeps its cells -/
+theorem expectedText_keep (cfg : Cfg) (m : Mon) (before : Obs) (g : Group) (t : Nat)
+    (hsd : (switchDiscard m before g && decide (t = 1 + g.b / 16 % 2)) = false)
+    (haddr : rtNoisy m g = true ∨ (addressed g).filter (fun a => a.1 = t) = []) :
+    expectedText cfg m before g t = (before.text t).cells := by
+  rw [expectedText_eq, hsd]
+  rcases haddr with h | h
+  · simp [h, expCells_nil]
+  · simp [h, expCells_nil]
+
+theorem switchDiscard_eq_clr (m : Mon) (s : State) (g : Group) (hlf : m.lastFlag = s.lastRt)
+    (h2 : g.type = 2) : switchDiscard m (Obs.ofState s) g = cg2clr s g := by
+  have hlt : g.b / 16 % 2 < 2 := Nat.mod_lt _ (by decide)
+  unfold switchDiscard cg2clr cg2sw
+  rw [obs_text_cells, text_rt _ _ hlt, hlf]
+  simp only [h2, decide_true, Bool.true_and]
+  generalize decide (g.eb = 0) = a
+  generalize (((g.b / 16 % 2 : Nat) : Int) != s.lastRt) = b
+  generalize (s.lastRt != -1) = c
+  generalize getAvailable (s.rt (g.b / 16 % 2)) = d
+  cases a <;> cases b <;> cases c <;> cases d <;> rfl
+
+theorem rtNoisy_eq_guard (m : Mon) (s : State) (g : Group) (hlf : m.lastFlag = s.lastRt)
+    (h2 : g.type = 2) : rtNoisy m g = cg2guard s g := by
+  unfold rtNoisy cg2guard
+  rw [g2s2_lastRt, hlf]
+  by_cases he : g.eb = 0
+  · simp [he]
+  · have : cg2sw s g = false := by simp [cg2sw, he]
+    simp only [this, h2, decide_true, Bool.true_and, Bool.false_eq_true, if_false]
+    generalize (g.eb != 0) = a
+    generalize (((g.b / 16 % 2 : Nat) : Int) != s.lastRt) = b
+    generalize (s.lastRt != -1) = c
+    cases a <;> cases b <;> cases c <;> rfl
+
+@[simp] theorem cleared_length (t : Text) : t.cleared.length = t.length := by simp [Text.cleared]
+
+theorem dispatch_text_other (cfg : Cfg) (s : State) (g : Group) (t : Nat)
+    (h0 : g.type ≠ 0) (h2 : g.type ≠ 2) (h10 : g.type ≠ 10) :
+    (dispatch cfg s g).1.text t = s.text t := by
+  unfold dispatch
+  simp only [h0, h2, h10, if_false]
+  split
+  · exact group1_text _ _ _ _
+  · split
+    · rw [cells_group4_fst]
+    · rfl
+
+/-- the four texts after the type dispatch are the expected ones -/
+theorem dispatch_text (cfg : Cfg) (m : Mon) (s : State) (g : Group) (hlf : m.lastFlag = s.lastRt)
+    (hps : s.ps.length = 8) (hr0 : s.rt0.length = 64) (hr1 : s.rt1.length = 64)
+    (hpt : s.ptyn.length = 8) (t : Nat) (ht : t < 4) :
+    (dispatch cfg s g).1.text t = expectedText cfg m (Obs.ofState s) g t := by
+  have hlt : g.b / 16 % 2 < 2 := Nat.mod_lt _ (by decide)
+  by_cases h0 : g.type = 0
+  · -- type 0: PS
+    have hn2 : g.type ≠ 2 := by omega
+    have hd : dispatch cfg s g = group0 cfg s g := by simp [dispatch, h0]
+    rw [hd]
+    by_cases ht0 : t = 0
+    · subst ht0
+      show (group0 cfg s g).1.ps = _
+      have ha : (addressed g).filter (fun a => a.1 = 0) =
+          [(0, 2 * (g.b % 4), g.d / 256 % 256, g.ed), (0, 2 * (g.b % 4) + 1, g.d % 256, g.ed)] := by
+        simp [addressed, h0]
+      rw [group0_ps, expectedText_eq, switchDiscard_ne2 _ _ _ hn2, rtNoisy_ne2 _ _ hn2, ha,
+        obs_text_cells]
+      simp only [Bool.false_and, Bool.false_eq_true, if_false]
+      exact (expCells_two cfg s.set .ps g.eb s.ps 0 0 _ g.d g.ed (by rw [hps]; omega)).symm
+    · have ht0' : ¬ 0 = t := fun h => ht0 h.symm
+      rw [expectedText_keep _ _ _ _ _ (by simp [switchDiscard_ne2 _ _ _ hn2])
+        (Or.inr (by simp [addressed, h0, ht0'])), obs_text_cells]
+      have : t = 1 ∨ t = 2 ∨ t = 3 := by omega
+      rcases this with h | h | h <;> subst h <;> simp [State.text]
+  by_cases h2 : g.type = 2
+  · -- type 2: RT
+    have hd : dispatch cfg s g = group2 cfg s g := by simp [dispatch, h2]
+    rw [hd, cells_group2_fst]
+    by_cases htf : t = 1 + g.b / 16 % 2
+    · subst htf
+      have hlen : ∀ c : Bool,
+          (if c = true then (s.rt (g.b / 16 % 2)).cleared else s.rt (g.b / 16 % 2)).length = 64 := by
+        intro c
+        have : (s.rt (g.b / 16 % 2)).length = 64 := by unfold State.rt; split <;> assumption
+        cases c <;> simp [this]
+      rw [text_rt _ _ hlt, expectedText_eq, switchDiscard_eq_clr _ _ _ hlf h2,
+        rtNoisy_eq_guard _ _ _ hlf h2, obs_text_cells, text_rt _ _ hlt, textIdOf_rt _ hlt]
+      simp only [decide_true, Bool.and_true]
+      have hset : (Obs.ofState s).set = s.set := rfl
+      rw [hset]
+      cases hg : cg2guard s g
+      · simp only [Bool.false_eq_true, if_false, setRt_rt_same, g2s2_set, g2s2_rt_same]
+        generalize hold : (if cg2clr s g = true then (s.rt (g.b / 16 % 2)).cleared
+          else s.rt (g.b / 16 % 2)) = old
+        have holdlen : old.length = 64 := by rw [← hold]; exact hlen _
+        by_cases hv : g.versionB = true
+        · have ha : (addressed g).filter (fun a => a.1 = 1 + g.b / 16 % 2) =
+              [(1 + g.b / 16 % 2, 2 * (g.b % 16), g.d / 256 % 256, g.ed),
+               (1 + g.b / 16 % 2, 2 * (g.b % 16) + 1, g.d % 256, g.ed)] := by
+            simp [addressed, h2, hv]
+          rw [ha, expCells_two cfg s.set .rt g.eb old _ _ _ g.d g.ed (by rw [holdlen]; omega)]
+          simp [cg2chain, hv]
+        · have hv' : g.versionB = false := by simpa using hv
+          have ha : (addressed g).filter (fun a => a.1 = 1 + g.b / 16 % 2) =
+              [(1 + g.b / 16 % 2, 4 * (g.b % 16), g.c / 256 % 256, g.ec),
+               (1 + g.b / 16 % 2, 4 * (g.b % 16) + 1, g.c % 256, g.ec),
+               (1 + g.b / 16 % 2, 4 * (g.b % 16) + 2, g.d / 256 % 256, g.ed),
+               (1 + g.b / 16 % 2, 4 * (g.b % 16) + 3, g.d % 256, g.ed)] := by
+            simp [addressed, h2, hv']
+          rw [ha, expCells_four cfg s.set .rt g.eb old _ _ _ _ _ g.c g.ec g.d g.ed
+            (by rw [holdlen]; omega)]
+          simp [cg2chain, hv']
+      · simp only [if_true, g2s2_rt_same, expCells_nil]
+    · have htf' : ¬ 1 + g.b / 16 % 2 = t := fun h => htf h.symm
+      rw [expectedText_keep _ _ _ _ _ (by simp [htf])
+        (Or.inr (by by_cases hv : g.versionB = true <;> simp [addressed, h2, hv, htf'])), obs_text_cells]
+      have hkeep : ∀ x : Text, ((cg2s2 s g).setRt (g.b / 16 % 2) x).text t = s.text t := by
+        intro x
+        have : t = 0 ∨ t = 3 ∨ (t = 1 + (t - 1) ∧ t - 1 < 2) := by omega
+        rcases this with h | h | ⟨h, hl⟩
+        · subst h; simp [State.text]
+        · subst h; simp [State.text]
+        · rw [h, text_rt _ _ hl, text_rt _ _ hl, setRt_rt_ne _ _ _ _ hlt hl (by omega),
+            g2s2_rt_ne _ _ _ hl (by omega)]
+      have hkeep2 : (cg2s2 s g).text t = s.text t := by
+        have : t = 0 ∨ t = 3 ∨ (t = 1 + (t - 1) ∧ t - 1 < 2) := by omega
+        rcases this with h | h | ⟨h, hl⟩
+        · subst h; simp [State.text]
+        · subst h; simp [State.text]
+        · rw [h, text_rt _ _ hl, text_rt _ _ hl, g2s2_rt_ne _ _ _ hl (by omega)]
+      split
+      · exact hkeep2
+      · exact hkeep _
+  by_cases h10 : g.type = 10
+  · -- type 10: PTYN
+    have hd : dispatch cfg s g = group10 cfg s g := by simp [dispatch, h10]
+    rw [hd]
+    by_cases hv : g.versionB = true
+    · rw [expectedText_keep _ _ _ _ _ (by simp [switchDiscard_ne2 _ _ _ h2])
+        (Or.inr (by simp [addressed, h10, hv])), obs_text_cells]
+      have : t = 0 ∨ t = 1 ∨ t = 2 ∨ t = 3 := by omega
+      rcases this with h | h | h | h <;> subst h <;> simp [State.text, group10_ptyn_B _ _ _ hv]
+    · have hv' : g.versionB = false := by simpa using hv
+      by_cases ht3 : t = 3
+      · subst ht3
+        show (group10 cfg s g).1.ptyn = _
+        have ha : (addressed g).filter (fun a => a.1 = 3) =
+            [(3, 4 * (g.b % 2), g.c / 256 % 256, g.ec), (3, 4 * (g.b % 2) + 1, g.c % 256, g.ec),
+             (3, 4 * (g.b % 2) + 2, g.d / 256 % 256, g.ed), (3, 4 * (g.b % 2) + 3, g.d % 256, g.ed)] := by
+          simp [addressed, h10, hv']
+        rw [group10_ptyn_A _ _ _ hv', expectedText_eq, switchDiscard_ne2 _ _ _ h2,
+          rtNoisy_ne2 _ _ h2, ha, obs_text_cells]
+        simp only [Bool.false_and, Bool.false_eq_true, if_false]
+        exact (expCells_four cfg s.set .ptyn g.eb s.ptyn 3 3 3 3 _ g.c g.ec g.d g.ed
+          (by rw [hpt]; omega)).symm
+      · have ht3' : ¬ 3 = t := fun h => ht3 h.symm
+        rw [expectedText_keep _ _ _ _ _ (by simp [switchDiscard_ne2 _ _ _ h2])
+          (Or.inr (by simp [addressed, h10, hv', ht3'])), obs_text_cells]
+        have : t = 0 ∨ t = 1 ∨ t = 2 := by omega
+        rcases this with h | h | h <;> subst h <;> simp [State.text]
+  · -- other types: no text touched
+    rw [dispatch_text_other _ _ _ _ h0 h2 h10,
+      expectedText_keep _ _ _ _ _ (by simp [switchDiscard_ne2 _ _ _ h2])
+        (Or.inr (by simp [addressed, h0, h2, h10])), obs_text_cells]
+
+theorem expectedText_congr (cfg : Cfg) (m : Mon) (o o' : Obs) (g : Group) (t : Nat)
+    (hs : o.set = o'.set) (h : ∀ t, (o.text t).cells = (o'.text t).cells) :
+    expectedText cfg m o g t = expectedText cfg m o' g t := by
+  have hsd : switchDiscard m o g = switchDiscard m o' g := by
+    unfold switchDiscard; rw [h]
+  rw [expectedText_eq, expectedText_eq, hsd, h, hs]
+
+/-- the four texts after `process` are the expected ones -/
+theorem process_text (cfg : Cfg) (m : Mon) (s : State) (g : Group) (hlf : m.lastFlag = s.lastRt)
+    (hps : s.ps.length = 8) (hr0 : s.rt0.length = 64) (hr1 : s.rt1.length = 64)
+    (hpt : s.ptyn.length = 8) (t : Nat) (ht : t < 4) :
+    (process cfg s g).1.text t = expectedText cfg m (Obs.ofState s) g t := by
+  show (dispatch cfg (groupCommon s g).1 g).1.text t = _
+  rw [dispatch_text cfg m _ g (by simpa using hlf) (by simpa using hps) (by simpa using hr0)
+    (by simpa using hr1) (by simpa using hpt) t ht]
+  apply expectedText_congr
+  · simp [Obs.ofState]
+  · intro t'
+    rw [obs_text_cells, obs_text_cells, groupCommon_text]
 
 end RDS
